@@ -215,7 +215,10 @@ theorem keeps_create (name : String) (init : Init V) : Keeps (Tbl.create name in
   | scalar v =>
     exact (heap_frame (w.setDico _) _ (appendScalar_geom v _ _)).trans (setDico_frame _ _)
   | list l =>
-    exact (heap_frame (w.setDico _) _ (appendVals_geom _ _ _)).trans (setDico_frame _ _)
+    simp only
+    split
+    · rfl
+    · exact (heap_frame (w.setDico _) _ (appendVals_geom _ _ _)).trans (setDico_frame _ _)
 
 theorem keeps_update (name : String) (init : Init V) : Keeps (Tbl.update name init : M (World V) Unit) := by
   intro w
